@@ -69,3 +69,8 @@ claim('C01',
       'tag-flow closure over dispatch tables of encoder and decoder (variant -> emitted tags -> decoded variant -> class / re-encode stability), writer wire-signature extraction compared with the reader\'s and with spec/etf_tags.json (incl. count provenance and field order), interval-guarded CAST over the encoder',
       'Decided from MIR: all 17 variants are dispatched; each of the 21 tags the encoder can emit is decoded, into a variant of the same Erlang value class, and that variant can emit the tag again; for every emitted tag the bytes written after the tag have exactly the layout the decoder reads and the format prescribes, including which written count governs which repetition or byte run and the order of same-width identifier fields; every length/arity/count written with a narrower width is range-guarded or try_from-ed (sizes the format cannot express are errors). These are necessary conditions of the round trip at the level of tags, layouts and sizes; equality of values (integer magnitude, float bits, bytes) is not decided.',
       NOTE, 'DESIGN.md §4 C01')
+
+claim('C10',
+      'provenance of the captured raw bytes, wire signature of the replay path, field-set agreement of Eq/Hash/Ord, who-may-construct rule over the whole workspace, conversion tables',
+      'Decided from MIR: parse_local_ext rebuilds a decoded pid/port/reference with exactly start[..8 + bytes consumed by the nested term] and the nested identifier\'s own fields; each identifier encoder writes `121 ++ raw bytes` (and nothing else) whenever raw bytes are present; eq, hash and cmp of the three identifier types read the same field set, namely all fields but the raw bytes (same identifier recognised in either form), while the derived Clone carries everything; no library function builds an identifier from the fields of an existing one and the owned<->borrowed conversions clone the identifier whole. The mechanism behind C10 is structural, so these clauses cover it; value equality of the replayed bytes is by construction (the slice is copied verbatim).',
+      NOTE, 'DESIGN.md §4 C10')
